@@ -1774,3 +1774,78 @@ Qed.
 (* inside the (relaxed) fragment the query raises nothing *)
 Theorem no_error C objcls M T l dom : F11lax C objcls T l = true -> run_raises C M T l dom = false.
 Proof. intros H. apply raises_no_tvar. apply (proj1 (proj2 (tr_no_tvar C objcls))). exact H. Qed.
+
+(* ------------------------------------------------------------------ no AttributeError in a world without None *)
+Section NoNone.
+  Variable C : cmodel.
+  Variable M : mworld.
+  Variable D : list Z.
+  Hypothesis Hnn : forall o a, nonone_v (attr (mw M) o a) = true.
+  Hypothesis HD : ~ In 0%Z D.
+
+  Definition clean (e : env) : Prop := forall p v, lookup e p = Some v -> nonone_v v = true.
+  Lemma nonone_not_none v : nonone_v v = true -> is_none v = false.
+  Proof. destruct v; simpl; auto. intros H. apply negb_true_iff in H. exact H. Qed.
+  Lemma clean_cons e p v : clean e -> nonone_v v = true -> clean ((p, v) :: e).
+  Proof. intros Hc Hv q w H. rewrite lookup_cons in H. destruct (path_eq_dec p q); [injection H as <-; auto|eauto]. Qed.
+
+  Lemma eval_path_clean p : forall e, clean e -> forall e' v, In (e', v) (eval_path M D p e) -> clean e' /\ nonone_v v = true.
+  Proof.
+    induction p as [|q IH a|q IH]; intros e Hc e' v; rewrite eval_path_eq; destruct (lookup e _) eqn:Hl.
+    - intros [H|[]]. injection H as <- <-. split; eauto.
+    - rewrite in_map_iff. intros [o [H Ho]]. injection H as <- <-.
+      assert (Hv : nonone_v (VO o) = true).
+      { simpl. apply negb_true_iff. apply Z.eqb_neq. intros ->. contradiction. }
+      split; auto. apply clean_cons; auto.
+    - intros [H|[]]. injection H as <- <-. split; eauto.
+    - rewrite in_map_iff. intros [[e1 u] [H Hin]]. simpl in H. injection H as <- <-.
+      destruct (IH e Hc e1 u Hin) as [Hc1 _].
+      assert (Hv : nonone_v (getattr (mw M) u a) = true) by (destruct u; simpl; auto).
+      split; auto. apply clean_cons; auto.
+    - intros [H|[]]. injection H as <- <-. split; eauto.
+    - rewrite in_flat_map. intros [[e1 u] [Hin H]]. rewrite in_map_iff in H. destruct H as [y [H Hy]]. simpl in H.
+      injection H as <- <-. destruct (IH e Hc e1 u Hin) as [Hc1 Hu].
+      assert (Hv : nonone_v y = true).
+      { destruct u as [z|o|zs|xs]; simpl in Hy; try contradiction.
+        - apply in_map_iff in Hy. destruct Hy as [z [<- _]]. reflexivity.
+        - apply in_map_iff in Hy. destruct Hy as [x [<- Hx]]. simpl in *. apply negb_true_iff. apply negb_true_iff in Hu.
+          destruct (Z.eqb x 0) eqn:Hx0; auto. apply Z.eqb_eq in Hx0. subst.
+          assert (existsb (Z.eqb 0) xs = true) by (apply existsb_exists; exists 0%Z; split; auto). congruence. }
+      split; auto. apply clean_cons; auto.
+  Qed.
+
+  Lemma path_raises_clean p : forall e, clean e -> path_raises M D p e = false.
+  Proof.
+    induction p as [|q IH a|q IH]; intros e Hc; simpl; destruct (lookup e _); auto.
+    rewrite (IH e Hc). simpl.
+    destruct (existsb (fun r : env * val => is_none (snd r)) (eval_path M D q e)) eqn:He; auto.
+    apply existsb_exists in He. destruct He as [[e1 u] [Hin Hn]].
+    destruct (eval_path_clean q e Hc e1 u Hin) as [_ Hu]. apply nonone_not_none in Hu. simpl in Hn. congruence.
+  Qed.
+
+  Lemma eval_clean c e e' : clean e -> In e' (trues (eval C M D c e)) -> clean e'.
+  Proof.
+    intros Hc Hin. apply in_trues in Hin. destruct c as [ex k p v|p T|k p v]; simpl in Hin; [| |contradiction].
+    - assert (Hm : In (e', false) (map (fun r : env * val => (fst r, negb (cmp M k (snd r) v))) (eval_path M D p e))).
+      { destruct ex; auto. apply exists_scan_sub in Hin. tauto. }
+      apply in_map_iff in Hm. destruct Hm as [[e1 u] [H Hr]]. injection H as <- _. apply (eval_path_clean p e Hc e1 u Hr).
+    - apply in_map_iff in Hin. destruct Hin as [[e1 u] [H Hr]]. injection H as <- _. apply (eval_path_clean p e Hc e1 u Hr).
+  Qed.
+
+  Lemma araises_clean cs : forall e, clean e -> araises_all C M D cs e = false.
+  Proof.
+    induction cs as [|c cs IH]; intros e Hc; simpl; auto.
+    rewrite (path_raises_clean _ e Hc). simpl.
+    change (map fst (filter (fun r : res => negb (snd r)) (eval C M D c e))) with (trues (eval C M D c e)).
+    destruct (existsb (araises_all C M D cs) (trues (eval C M D c e))) eqn:He; auto.
+    apply existsb_exists in He. destruct He as [e1 [Hin Hr]]. rewrite (IH e1 (eval_clean c e e1 Hc Hin)) in Hr. discriminate.
+  Qed.
+End NoNone.
+
+(* whatever the pattern: in a world without None no attribute access fails *)
+Theorem no_attr_error C M T l dom : no_none M dom -> run_araises C M T l dom = false.
+Proof.
+  intros [Hnn HD]. apply araises_clean; auto.
+  - intros H. apply filter_In in H. tauto.
+  - intros p v H. discriminate.
+Qed.
